@@ -183,6 +183,10 @@ def curveOk (a : Algs) (curve : Nat) : Bool :=
 def rsaOk (a : Algs) (bits : Nat) (sfl : Nat) : Bool :=
   a.enabled.contains 1 && (rsaSizes.any (fun (b, s) => b == bits && s ≤ sfl)) && decide (bits ≥ minSizeOf a 1)
 
+/-- is this symmetric key size usable: the build has it at this StateFormatLevel and it is not below the minimum -/
+def symSizeOk (a : Algs) (alg bits sfl : Nat) : Bool :=
+  a.enabled.contains alg && (symSizes.any (fun (al, b, s) => al == alg && b == bits && s ≤ sfl)) && decide (bits ≥ minSizeOf a alg)
+
 /-! ### Attributes (`RuntimeAttributes.c`) -/
 
 /-- `RuntimeAttributesSetProfile`: a comma-separated list of attribute names, each known and allowed at this
